@@ -39,6 +39,8 @@ ASSUMPTIONS = [
     'the send side only',
     'channel.send_packet is abstracted at the emission site (ghost log): that it silently returns when _send_chan is '
     'None and may propagate errors of the connection is C07 (SSHChannel.send_packet contract), not restated here',
+    'the readable extended data types of every channel class are a subset of {EXTENDED_DATA_STDERR} (class constants, '
+    'channel.py 91, 1125) - needed only for the debug-log lookup _data_type_names[datatype] in _process_extended_data',
     'the stream-layer pause at one window of buffered data (stream.py) is covered by C19, not here',
 ]
 
@@ -253,7 +255,7 @@ process_window_adjust = Spec(
     stubs={'self._flush_send_buf': adjust_then_flush_stub},
     requires=lambda c: z3.And(send_inv(c, new=False), packet_wf(c, c.argv('packet'))),
     ensures=[('class-inv', lambda c: send_inv(c)),
-             ('window-grows-exactly-by-the-adjust-of-the-packet-then-flush', window_adjust_post)],
+             ('window-grows-only-by-adjust', window_adjust_post)],
     raises={'ProtocolError': window_adjust_refused, 'PacketDecodeError': window_adjust_refused})
 
 
@@ -286,6 +288,13 @@ def accept_stub(cx):
 accept_stub.modifies = ()
 EXT_FIELDS = dict(CHAN_FIELDS, _read_datatypes='dict[int,bool]')       # a set of ints: only membership is used
 EXT_CLASSES = dict(CHAN_CLASSES, SSHChannel=EXT_FIELDS, **PACKET_CLASSES)
+
+
+def only_stderr(c):
+    """the readable extended data types of every channel class are a subset of {EXTENDED_DATA_STDERR} (class constants,
+    channel.py 91, 1125); needed only for the debug-log lookup _data_type_names[datatype]"""
+    k = z3.Int(fresh_name('k'))
+    return z3.ForAll([k], z3.Implies(z3.Select(c.oldv('_read_datatypes').dom, k), k == 1))
 
 
 def wire_string(c, off=0):
@@ -335,7 +344,7 @@ process_extended_data = Spec(
     params=dict(_pkttype='int', _pktid='int', packet='obj:SSHPacket'),
     classes=EXT_CLASSES, inline=dict(PACKET_INLINE), truthy=PACKET_TRUTHY,
     stubs={'self._accept_data': accept_stub},
-    requires=lambda c: z3.And(recv_inv(c, new=False), packet_wf(c, c.argv('packet'))),
+    requires=lambda c: z3.And(recv_inv(c, new=False), packet_wf(c, c.argv('packet')), only_stderr(c)),
     ensures=[('accepted-only-within-window-and-only-a-readable-data-type', lambda c: accepted(c, True))],
     raises={'ProtocolError': refused, 'PacketDecodeError': refused})
 
@@ -420,7 +429,7 @@ accept_data = Spec(
                               z3.Length(c.arg('data')) <= c.old('_recv_window') - total(c.old('_recv_buf')),
                               c.old('_init_recv_window') < 2 ** 32, decoder_inv(c)),
     lemmas=accept_lemmas,
-    ensures=[('buffered-at-the-end-xor-delivered-never-dropped', accept_post),
+    ensures=[('buffered-when-paused-in-order', accept_post),
              ('class-inv', lambda c: recv_inv(c)),
              ('buffered-bytes-stay-within-the-advertised-window', lambda c: credit_inv(c))],
     raises={'ProtocolError': True})
@@ -502,7 +511,7 @@ process_extended_data_credit = Spec(
     params=dict(_pkttype='int', _pktid='int', packet='obj:SSHPacket'),
     classes=EXT_CLASSES, inline=dict(PACKET_INLINE), truthy=PACKET_TRUTHY,
     stubs={'self._accept_data': accept_stub},
-    requires=credit_requires,
+    requires=lambda c: z3.And(credit_requires(c), only_stderr(c)),
     ensures=[('accepted-only-within-advertised-credit', within_credit)],
     raises={'ProtocolError': True, 'PacketDecodeError': True})
 process_extended_data_credit.tag = 'credit'
